@@ -6,6 +6,7 @@ import (
 	"flag"
 	"fmt"
 	"os"
+	"runtime/debug"
 	"strings"
 	"time"
 
@@ -70,6 +71,9 @@ var children = map[string]func(rep *report.Report, tier, part string){
 }
 
 func main() {
+	// the code under test (ygot) allocates heavily and the live heap is small: with the default GC target the
+	// collector runs continuously and the workers spend most of their time in stop-the-world hand-shakes
+	debug.SetGCPercent(1000)
 	flag.Set("logtostderr", "false")
 	flag.Set("stderrthreshold", "FATAL")
 	child := flag.Bool("child", false, "run one shard and dump the partial report")
